@@ -2,6 +2,7 @@ package specification
 
 import (
 	"fmt"
+	"strconv"
 
 	"github.com/getkin/kin-openapi/openapi3"
 )
@@ -79,6 +80,13 @@ func NewOperation(pi *PathItem, rawPath string, method Method, operation *openap
 	usedResponses := make(map[*Response]string)
 	for i, ro := range o.Responses.List {
 		rr := operation.Responses[ro.Name]
+
+		if ro.Name != "default" {
+			// the key becomes the argument of WriteHeader: an HTTP status code ("2XX"-style ranges are not supported)
+			if code, err := strconv.Atoi(ro.Name); err != nil || len(ro.Name) != 3 || code < 100 {
+				return nil, fmt.Errorf("response key %q: expected an HTTP status code (100..999) or 'default'", ro.Name)
+			}
+		}
 
 		if rr.Ref != "" {
 			ref := rr.Ref
